@@ -252,6 +252,10 @@ func main() {
 			os.Stdout.WriteString(runFinishes(atoi(a[1])))
 			return
 		}
+		if len(a) == 3 && a[0] == "listen" {
+			os.Stdout.WriteString(runListen(a[1]))
+			return
+		}
 		if len(a) != 3 || a[2] == "-" {
 			os.Stdout.WriteString("BAD-CASE")
 			return
